@@ -53,19 +53,3 @@ Proof. vm_compute. reflexivity. Qed.
 Theorem c10_run_once : forall s, wf_groups s -> for_groups check_C10_group s (run_journals s) = true.
 Proof. exact run_passes_C10. Qed.
 Print Assumptions c10_run_once.
-
-(* ---------- the tie to the source: GeneratedCtl.v is re-derived from the Go source on every run (harness gen --out-ctl);
-   the decisions this property rests on, as the code states them today, are the model's ---------- *)
-From Esc Require Import GeneratedCtl proofs.GenCtlAgree proofs.GenCtlAgree_Reap.
-
-(* scale_down.go safeFromDeletion = safe_from_deletion *)
-Theorem c10_src_annotation : forall n, annots_ok n -> gen_safeFromDeletion n = safe_from_deletion n.
-Proof. exact gen_safeFromDeletion_agree. Qed.
-Print Assumptions c10_src_annotation.
-
-(* scale_down.go TryRemoveTaintedNodes: the reaper's candidates are the tainted nodes the code's loop body appends
-   (annotation maps have one entry per key) *)
-Theorem c10_src_reaper : forall e o pods tainted, Forall annots_ok tainted ->
-  reap_candidates e o (e_dry e || o_dry o) pods tainted = filter (gen_TryRemoveTaintedNodes_keep e o pods false) tainted.
-Proof. exact gen_reap_candidates. Qed.
-Print Assumptions c10_src_reaper.
